@@ -151,6 +151,9 @@ def chain_shard(b, p):
 
 
 def replay(case):
+    if case.get("part") == "oob":
+        from harness.checks import c15
+        return c15.oob_case(case)
     chk = Checker()
     try:
         m = ir.run_program(case, after=chk)
@@ -179,6 +182,10 @@ def run(ctx):
     for b, p in grids:
         total.merge_json(core.run_shards("harness.checks.c04", "grid_shard",
                                          [dict(cells=cells[i::16], b=b, p=p) for i in range(16)]).to_json())
+    # reads of arrays at secret positions outside them, with errors ignored: value = wire whatever is returned (shared with C15)
+    oob = [{"part": "oob", "p": "bn128", "n": n_, "pos": pos, "write": False, "plain": pl} for pl in (True, False) for n_ in (1, 2, 3, 5, 8, 64, 70)
+           for pos in (-1, -2, -n_, -n_ - 1, n_, n_ + 1, 2 * n_)]
+    total.merge_json(core.run_shards("harness.checks.c15", "oob_shard", [dict(cases=oob[i::4]) for i in range(4)]).to_json())
     total.merge_json(core.run_shards("harness.checks.c04", "chain_shard", [dict(b=8, p="bn128"), dict(b=16, p="bls12-381")]).to_json())
     total.merge_json(core.run_shards("harness.checks.c04", "shard", shards).to_json())
     total.extra["shard_seeds"] = [s["seed"] for s in shards]
